@@ -284,6 +284,10 @@ fn common_backend<B: VhostBackend + AsRawFd>(cx: &Ctx, b: &B, mem: &Mem, transla
             ("size-not-power-of-two", VringConfigData { queue_size: 3, ..cd }),
             ("size-not-power-of-two-2", VringConfigData { queue_size: 48, ..cd }),
             ("size-over-max", VringConfigData { queue_size: 128, ..cd }),
+            // a maximum that is not a power of two itself: its non-power-of-two divisors stay invalid
+            ("size-not-power-of-two-divides-max", VringConfigData { queue_max_size: 96, queue_size: 3, ..cd }),
+            ("size-not-power-of-two-divides-max-2", VringConfigData { queue_max_size: 65535, queue_size: 15, ..cd }),
+            ("size-over-odd-max", VringConfigData { queue_max_size: 96, queue_size: 128, ..cd }),
             ("log-flag-without-address", VringConfigData { flags: 1, log_addr: None, ..cd }),
         ] {
             if b.set_vring_addr(qi, &c2).is_ok() {
